@@ -206,6 +206,7 @@ func (l *vSharedLock) Release(context.Context) error {
 	return nil
 }
 
+// native goroutine driver that replays scheduler counterexamples of vh_C12_conc (never run symbolically)
 // verif: tiers=none
 func vh_C12_conc_replay() {
 	nreq := 2 + ndChoice("requests", 2)
